@@ -340,7 +340,9 @@ class BaseProject(object, metaclass=ABCMeta):
                 )
             
             # Update state of task newly allocated workers and facilities (READY -> WORKING)
-            self.workflow.check_state(self.time, BaseTaskState.WORKING)
+            # (nothing starts in absence time, unless auto tasks are performed then)
+            if working or perform_auto_task_while_absence_time:
+                self.workflow.check_state(self.time, BaseTaskState.WORKING)
             self.product.check_state()  # product should be checked after checking workflow state
             if _VERIF and _verif_observer is not None:
                 _verif_observer(self, "allocated", working)
